@@ -52,6 +52,12 @@ def failing_blocks(k):
     B.append(('wrong_output', [">>> print('right', t(%d))" % k], ['wrong'], 1, 'GotWantException', 'gotwant'))
     B.append(('wrong_output_multiline_want', [">>> print('a\\nb', t(%d))" % k], ['a', 'c'], 1, 'GotWantException', 'gotwant'))
     B.append(('blankline_want', [">>> print('x', t(%d))" % k], ['<BLANKLINE>'], 1, 'GotWantException', 'gotwant'))
+    # wants with wildcards that fail in every way a wildcard want can fail: the piece between two wildcards is missing although both ends fit;
+    # the start does not fit; the end does not fit; the pieces are there in the wrong order
+    B.append(('wildcard_middle_missing', [">>> print('alpha gamma omega', t(%d))" % k], ['alpha ... beta ... omega %d' % k], 1, 'GotWantException', 'gotwant'))
+    B.append(('wildcard_both_sides_missing', [">>> print('alpha gamma omega', t(%d))" % k], ['alpha ...beta... omega'], 1, 'GotWantException', 'gotwant'))
+    B.append(('wildcard_wrong_order', [">>> print('one two three', t(%d))" % k], ['one ... three ... two ...'], 1, 'GotWantException', 'gotwant'))
+    B.append(('wildcard_end_missing', [">>> print('alpha gamma', t(%d))" % k], ['alpha ... omega'], 1, 'GotWantException', 'gotwant'))
     B.append(('raise_direct', ['>>> t(%d)' % k, ">>> raise ValueError('direct')"], [], 1, 'ValueError', 'exception'))
     B.append(('raise_in_multiline', ['>>> z = [t(%d),' % k, '...      1 // 0,', '...      3]'], [], 1, 'ZeroDivisionError', 'exception'))
     B.append(('raise_in_called_code', ['>>> q = 1', '>>> called(%d)' % k], [], 1, 'KeyError', 'exception'))
@@ -369,7 +375,31 @@ def runner_checks(ctx, cases):
             del sys.modules[k]
 
 
+def check_known_classes(ctx):
+    """recorded defects of the unchanged tree, re-evaluated on the real code every run"""
+    from xdoctest import doctest_example
+    for e in common.load_known_findings('C09'):
+        doc = e['witness']['doctest']
+        so = sys.stdout
+        ctx.evaluations += 1
+        try:
+            with contextlib.redirect_stdout(io.StringIO()):
+                s = doctest_example.DocTest(docsrc=doc, lineno=1).run(on_error='return', verbose=0)
+            still = False
+            outcome = 'returns a summary (failed=%s)' % bool(s['failed'])
+        except Exception as ex:      # noqa
+            still = True
+            outcome = 'raises %s' % type(ex).__name__
+        finally:
+            sys.stdout = so
+        if still:
+            ctx.known_finding('%s %s; e.g. doctest=%r (%s)' % (e['id'], e['what'], doc, outcome))
+        else:
+            ctx.notes.append('recorded finding %s no longer reproduces: %s' % (e['id'], outcome))
+
+
 def run(ctx):
+    check_known_classes(ctx)
     cases = build_cases(ctx)
     chunks = [cases[i:i + 12] for i in range(0, len(cases), 12)]
     results = [r for ch in common.pmap(_worker, chunks) for r in ch]
